@@ -65,6 +65,16 @@ def seed_pair_dominates(f):
     return len(adds) == 1 and bool(rets) and all(adds[0] in dom.get(r, set()) for r in rets)
 
 
+_TRACE_STARTS_REFERENCE = '''
+def get_global_trace_starts(seq1_len, seq2_len, lower_diag, upper_diag):
+    band_width = upper_diag - lower_diag + 1
+    j = np.arange(1, band_width + 1)
+    seq_j = j + (seq1_len-1) + lower_diag - 1
+    i = np.where(seq_j < seq2_len, np.full(len(j), (seq1_len-1) + 1, dtype=int), (seq2_len-1) - j - lower_diag + 2)
+    return i, j
+'''
+
+
 def run(ctx):
     en = tracetab.enums(ctx)
     # the shared selectors/dispatch (cheap, keeps C09 self-contained)
@@ -153,6 +163,18 @@ def run(ctx):
            all(guard_cols.get(t_, set()) >= {"0", "-1"} for t_ in ("m_table", "score_table")),
            "column 0 and column -1 of the banded tables lie outside the band: both must hold the sentinel, or a path starts for free at "
            "the band edge that was left at 0", ab.lineno)
+    # the cells a semi-global trace may start from: every column of the band (1 .. band width) in the last row, or the row that the end of
+    # the longer sequence gives - the whole helper against what it has to compute
+    from ..equiv import same_function as _same_function
+    gts = b.func("get_global_trace_starts")
+    ok_gts, shown_gts = _same_function(gts, _TRACE_STARTS_REFERENCE)
+    ctx.ob("R3.band-trace-starts", BD, "get_global_trace_starts", "j = 1 .. band_width; i = last row, or the row of the last position of seq2",
+           ok_gts, "an end column that is left out (the last diagonal of the band) is never a start: the optimum that ends there is not found; "
+           "the function computes " + shown_gts, gts.lineno)
+    # the trace buffer holds the longest trace there is: every symbol of both sequences aligned to a gap
+    ctx.ob("R3.trace-buffer", BD, "align_banded", "trace = np.full((len(seq1) + len(seq2), 2), -1, dtype=np.int64)",
+           has_code(ab, "trace = np.full((len(seq1) + len(seq2), 2), -1, dtype=np.int64)"),
+           "a trace has at most len(seq1) + len(seq2) columns; the band limits the DIFFERENCE of the gap counts, not the number of gaps", ab.lineno)
     ft_calls = [c for c in calls(ab) if call_name(c) == "follow_trace"]
     def _kw(c, name):
         return next((ast.unparse(k.value) for k in c.keywords if k.arg == name), None)
@@ -377,6 +399,15 @@ def extra_rules(ctx):
     # k-2 (moved by a match: +1 at both ends)
     for q in ("_fill_align_table", "_fill_align_table_affine"):
         ff = ctx.src(LG).func(q)
+        # the only way out of the antidiagonal loop is an empty index range (a match step skips one antidiagonal: an antidiagonal without a
+        # cell above the threshold does not end the extension)
+        loops_k = [lp for lp in ff.body if isinstance(lp, (ast.For, ast.While))]
+        outs_ = [x for lp in loops_k for x in ast.walk(lp) if isinstance(x, (ast.Break, ast.Return))
+                 and not any(isinstance(il, (ast.For, ast.While)) and il is not lp and any(y is x for y in ast.walk(il)) for il in ast.walk(lp))]
+        guarded_ = [st for lp in loops_k for st in ast.walk(lp) if isinstance(st, ast.If) and same_expr(st.test, "i_min > i_max")
+                    and len(st.body) == 1 and isinstance(st.body[0], ast.Break)]
+        ctx.ob("R3.extension-ends-on-empty-range", LG, q, f"{len(outs_)} way(s) out of the antidiagonal loop", len(outs_) == 1 and len(guarded_) == 1,
+               "the table filling stops when the index range of an antidiagonal is empty, and only then", ff.lineno)
         ctx.ob("R3.antidiagonal-range", LG, q, "i_min = min(i_min(k-1), i_min(k-2) + 1); i_max = max(i_max(k-1) + 1, i_max(k-2) + 1), clipped to the sequences",
                has_code(ff, "i_min = _min(i_min_k_1, i_min_k_2 + 1)") and has_code(ff, "i_max = _max(i_max_k_1 + 1, i_max_k_2 + 1)")
                and has_code(ff, "i_min = _max(i_min, k - code2.shape[0])") and has_code(ff, "i_max = _min(i_max, code1.shape[0])"),
